@@ -65,15 +65,24 @@ def Value.printBytes (v : Value) : Bytes :=
 /-- `Value::println()` -/
 def Value.println (v : Value) : TM Unit := sayOut (v.printBytes ++ [10])
 
-/-- `Value::extract_values` (value.cpp:30): the pushes of `data` read as a script; only non-empty pushes are allowed -/
+/-- one element of `extract_values`: OP_1..OP_16 stand for [n], OP_1NEGATE for [0x81], any push (OP_0 included) for its
+    data; other opcodes are refused -/
+def extractOne (opcode : Nat) (data : Bytes) : Option Bytes :=
+  if 0x51 ≤ opcode && opcode ≤ 0x60 then some [UInt8.ofNat (opcode - 0x50)]
+  else if opcode == 0x4f then some [0x81]
+  else if opcode > 0x4e then none          -- we only allow push operations here
+  else some data
+
+/-- `Value::extract_values` (value.cpp:30): the operations of `data` read as a script -/
 def extractValues (s : Bytes) : Option (List Bytes) :=
   match h : getOp s with
   | none => if s.isEmpty then some [] else none
   | some g =>
-    if g.data.isEmpty then none
-    else match extractValues g.rest with
+    match extractOne g.opcode g.data with
+    | none => none
+    | some v => match extractValues g.rest with
       | none => none
-      | some vs => some (g.data :: vs)
+      | some vs => some (v :: vs)
 termination_by s.length
 decreasing_by exact getOp_rest_lt h
 
@@ -103,24 +112,28 @@ def VCtx.hash (cx : VCtx) (b : Bytes) : Bytes := cx.sha256 (cx.sha256 b)
 def doBase58ChkEnc (cx : VCtx) (v : Value) : TM Value :=
   pure { v.dv with str := encodeBase58Check cx.hash v.dv.data, type := .T_STRING }
 
+/-- `std::numeric_limits<int>::max()` -/
+def intMaxC : Nat := 2147483647
+
 /-- `do_base58chkdec` (value.h:417) -/
 def doBase58ChkDec (cx : VCtx) (v : Value) : TM Value :=
   if v.type != .T_STRING then abortMsg v "cannot base58-decode non-string value"
   else if v.str.any (· == 0) then do
     -- the std::string overload returns false before touching `data`
     sayErr (asc "decode failed\n"); pure { v with type := .T_DATA }
-  else match decodeBase58Check cx.hash v.str 200 with
+  else match decodeBase58Check cx.hash v.str intMaxC with
     | none => do sayErr (asc "decode failed\n"); pure { v with data := [], type := .T_DATA }
     | some d => pure { v with data := d, type := .T_DATA }
 
-/-- `do_addr_to_spk` (value.h:427): no check of the version byte or of the payload length -/
+/-- `do_addr_to_spk` (value.h:427): the decoded payload must be version byte 0x00 followed by 20 bytes -/
 def doAddrToSpk (cx : VCtx) (v : Value) : TM Value := do
   let v ← doBase58ChkDec cx v
-  match v.data with
-  | [] => liftVM (.error (.abnormal "data.erase(data.begin()) on an empty vector"))
-  | _ :: d =>
-    -- s << OP_DUP << OP_HASH160 << data << OP_EQUALVERIFY << OP_CHECKSIG
-    pure { v with data := [0x76, 0xa9] ++ pushData d ++ [0x88, 0xac] }
+  if v.type != .T_DATA || v.data.length != 21 || v.data.getD 0 0 != 0 then do
+    sayErr (asc "not a pay-to-pubkey-hash address\n")
+    pure { v with data := [] }
+  else
+    -- data.erase(data.begin()); s << OP_DUP << OP_HASH160 << data << OP_EQUALVERIFY << OP_CHECKSIG
+    pure { v with data := [0x76, 0xa9] ++ pushData (v.data.drop 1) ++ [0x88, 0xac] }
 
 /-- `do_spk_to_addr` (value.h:438): reads `data` whatever the type is -/
 def doSpkToAddr (cx : VCtx) (v : Value) : TM Value :=
@@ -148,14 +161,19 @@ def doBech32Dec (v : Value) : TM Value :=
     | none => abortMsg v "failed to bech32(m)-decode string"
     | some (enc, hrp, bech) =>
       match bech with
-      | [] => liftVM (.error (.abnormal "bech[0] on an empty vector"))
+      | [] => abortMsg v "bech32(m) string has no data part"
       | version :: rest => do
         sayOut (asc "(bech32" ++ (if enc == .BECH32M then asc "m" else []) ++ asc " HRP = " ++ cstrOf hrp ++ asc ")\n")
         let r := convertBits 5 8 false (rest.map UInt8.toNat)
         let v' : Value := { v with type := .T_DATA, data := r.1.map UInt8.ofNat }
-        if r.2 && version == 0 && v'.data.length != 20 && v'.data.length != 32 then
-          sayErr (asc s!"warning: unknown size {v'.data.length}\n")
-        pure v'
+        if r.2 then do
+          if version == 0 && v'.data.length != 20 && v'.data.length != 32 then
+            sayErr (asc s!"warning: unknown size {v'.data.length}\n")
+          pure v'
+        else do
+          -- the 5-bit symbols do not regroup into whole bytes (BIP173: invalid padding)
+          sayErr (asc "failed to bech32(m)-decode string (invalid padding)\n")
+          pure { v' with data := [] }
 
 /-- `CPubKey(vch).IsValid()`: the length announced by the header byte is the length given -/
 def cpubkeyValid (b : Bytes) : Bool :=
@@ -168,15 +186,13 @@ def verifySig (compact : Bool) (v : Value) : TM Value :=
   if v.type != .T_DATA then abortMsg v "invalid type (must be data)"
   else match extractValues v.data with
     | some [sighash, pk, sig] =>
-      if sighash.length != 32 && sighash.length != 64 then abortMsg v "invalid input (sighash must be 32 or 64 bytes)"
-      else if sighash.length != 32 then liftVM (.error (.abnormal "assert(vch.size() == sizeof(m_data)) in uint256(vector)"))
+      if sighash.length != 32 then abortMsg v "invalid input (sighash must be 32 bytes)"
+      else if pk.length == 32 && sig.length != 64 then abortMsg v "invalid input (a signature for an x-only pubkey must be 64 bytes)"
       else if pk.length == 32 then
         -- new style pubkey, so use schnorr validation
         match Crypto.parseXOnly pk with
         | none => abortMsg v "invalid x only pubkey"
         | some _ =>
-          if sig.length != 64 then liftVM (.error (.abnormal "assert(sigbytes.size() == 64) in XOnlyPubKey::VerifySchnorr"))
-          else
             let ok := Crypto.schnorrVerify pk sighash sig
             let sh2 := sighash.reverse
             let pk2 := pk.reverse
@@ -254,8 +270,10 @@ def doPubkeyToXpubkey (v : Value) : TM Value :=
 /-- `get_arith_uint256(Value(vector), a)`: the first 32 bytes, little-endian -/
 def arithOfBytes (d : Bytes) : Nat := leValue (d.take 32)
 
-/-- `add(data, a, b, g)` (value.cpp:187) on 256-bit unsigned integers -/
+/-- `add(data, a, b, g)` (value.cpp:191) on 256-bit unsigned integers: the operands are reduced modulo g first -/
 def arithAdd (a b g : Nat) : Bytes :=
+  let a := if g != 0 then a % g else a
+  let b := if g != 0 then b % g else b
   let c := (a + b) % 2 ^ 256
   let c := if g != 0 && (c ≥ g || c < a) then (c + 2 ^ 256 - g) % 2 ^ 256 else c
   leFixed 32 c
@@ -267,12 +285,14 @@ def doAdd (v : Value) : TM Value :=
   | some [a, b, g] => pure { v with data := arithAdd (arithOfBytes a) (arithOfBytes b) (arithOfBytes g) }
   | _ => abortMsg v "invalid input (needs two values, with optional group as third)"
 
-/-- `do_sub` (value.cpp:214): `b = -b` (two's complement) then `add` -/
+/-- the subtrahend `do_sub` hands to `add`: `g - b % g` with a modulus, the two's complement `-b` without -/
+def arithNeg (b g : Nat) : Nat := if g != 0 then g - b % g else (2 ^ 256 - b) % 2 ^ 256
+
+/-- `do_sub` (value.cpp:221) -/
 def doSub (v : Value) : TM Value :=
-  let neg (b : Nat) : Nat := (2 ^ 256 - b) % 2 ^ 256
   match extractValues v.data with
-  | some [a, b] => pure { v with data := arithAdd (arithOfBytes a) (neg (arithOfBytes b)) 0 }
-  | some [a, b, g] => pure { v with data := arithAdd (arithOfBytes a) (neg (arithOfBytes b)) (arithOfBytes g) }
+  | some [a, b] => pure { v with data := arithAdd (arithOfBytes a) (arithNeg (arithOfBytes b) 0) 0 }
+  | some [a, b, g] => pure { v with data := arithAdd (arithOfBytes a) (arithNeg (arithOfBytes b) (arithOfBytes g)) (arithOfBytes g) }
   | _ => abortMsg v "invalid input (needs two values, with optional group as third)"
 
 /-- `do_tagged_hash` (value.cpp:280) -/
@@ -363,10 +383,9 @@ def doJacobiSymbol (v : Value) : TM Value :=
         pure { v with int64 := j, type := .T_INT }
     | some _ => abortMsg v "invalid input (needs n and optional k)"
 
-/-- `do_prefix_compact_size` (value.cpp:252): `data_value()` then the prefix is inserted into `data`; the type
-    is left as `data_value()` leaves it (a string stays a string, an opcode an opcode) -/
+/-- `do_prefix_compact_size` (value.cpp:267): `data_value()`, `type = T_DATA`, then the prefix is inserted into `data` -/
 def doPrefixCompactSize (v : Value) : TM Value :=
-  pure { v.dv with data := compactSize v.dv.data.length ++ v.dv.data }
+  pure { v.dv with data := compactSize v.dv.data.length ++ v.dv.data, type := .T_DATA }
 
 /-- `do_len` (value.cpp:266) -/
 def doLen (v : Value) : TM Value :=
@@ -447,7 +466,7 @@ def classifyPlainF (cur : Value) (full : Bytes) (vlen : Nat) : Value :=
       let h := if vlen > 2 && full.getD 0 0 == 48 && full.getD 1 0 == 120 then full.drop 2 else full
       let r := tryHexP h []
       if r.1 then { cur with int64 := n, opcode := 0xff, data := r.2, type := .T_DATA }
-      else { cur with int64 := n, opcode := 0xff, data := r.2 }
+      else { cur with int64 := n, opcode := 0xff, data := [] }      -- `data.clear()` after a failed TryHex
     else { cur with int64 := n, opcode := 0xff }
 
 /-- `parse_args(const std::vector<const char*>)` in the transform monad (see `parseArgsListWith`) -/
